@@ -1,6 +1,6 @@
 (* RoundTripWf.v — the well-formedness predicate for values that the model round-trips. *)
 From FDO Require Import Cbor.Typed Cbor.DecFacts.
-From WIP Require Import RoundTripMono RoundTripHead.
+From FDO Require Import Cbor.RoundTripMono Cbor.RoundTripHead.
 Local Open Scope nat_scope.
 
 Definition int64_ok (z : Z) : Prop := (kind_min KI64 <= z <= kind_max KI64)%Z.
